@@ -168,6 +168,10 @@ def emitted_names(inv):
                 out[fi["name"]] = fi["tokens"]
         elif it["kind"] in ("struct", "union", "type", "const", "enum", "static", "fn") and it.get("name") and it["name"] != "_":
             out[it["name"]] = it["tokens"]
+        elif it["kind"] == "use":
+            m = re.search(r"as\s+(\w+)\s*;", it["tokens"])   # `pub use self::Nc as Nb;` (typedef of an enum)
+            if m:
+                out[m.group(1)] = it["tokens"]
     return out
 
 
